@@ -117,6 +117,13 @@ func (f *Formatter) formatInfixExpression(expr *ast.InfixExpression) *ChunkBuffe
 		if !f.conf.ExplicitStringConcat {
 			operator = ""
 		}
+		// The operator can be omitted only before an operand which the parser takes for a concatenation
+		// without it: a string, an identifier, a function call or if(). `a -1`, `a 1` and `a (b)` are not.
+		switch expr.Right.(type) {
+		case *ast.String, *ast.Ident, *ast.FunctionCallExpression, *ast.IfExpression:
+		default:
+			operator = expr.Operator
+		}
 	}
 
 	buf.Append(f.formatExpression(expr.Left))
